@@ -22,9 +22,13 @@ def first_line(path):
 def main():
     rounds = json.load(open(os.path.join(VERIF, 'seeded', 'ROUNDS.json')))
     which = {}
-    for rnd in ('round2', 'round3'):
+    later = sorted((k for k in rounds if k.startswith('round') and
+                    k[5:].isdigit() and int(k[5:]) >= 2),
+                   key=lambda k: int(k[5:]))
+    for rnd in later:
         for name, d in (rounds.get(rnd) or {}).items():
-            which[name] = (rnd, d)
+            if not name.startswith('_') and isinstance(d, dict):
+                which[name] = (rnd, d)
     rows = []
     for name in sorted(os.listdir(os.path.join(VERIF, 'seeded'))):
         d = os.path.join(VERIF, 'seeded', name)
@@ -50,7 +54,7 @@ def main():
             as_was = (aw == 1)
         rows.append((rnd, name, r.get('exit'), m.group(1) if m else '',
                      as_was, info.get('after', '')))
-    for rnd in ('round1', 'round2', 'round3'):
+    for rnd in ['round1'] + later:
         sel = [x for x in rows if x[0] == rnd]
         if not sel:
             continue
